@@ -63,7 +63,7 @@ def run(ctx):
     q = ctx.tier == "quick"
     vlib.proof_step(ctx)
     import dpcmtie
-    dpcmtie.run(ctx, 800 if q else 20000)
+    dpcmtie.run(ctx, 1600 if q else 40000, "w")
     script, plan = gen(ctx, q)
     rc, hl, err = sdrive.run_harness(script, "C07_partitions", timeout=1800)
     if rc != 0:
